@@ -17,7 +17,7 @@ import ast
 from ..cfg import CFG
 from ..match import calls, expected_term, returns, term_of
 from ..model import own_nodes, parents
-from ..terms import show, walk_term
+from ..terms import Canon, Scope, show, walk_term
 
 EXPLANATION = ('Definite-initialisation analysis (R4) of the np.empty feature matrix (cursor discipline, closing range), placement rule for structured features, constant obligations on dtype, '
                'origin analysis of the values returned by _generate_feature (domain containment), comparison normal form (R14) of the representation guard, seed-dominates-draw (R10), '
@@ -41,6 +41,299 @@ def _is_gen_call(n):
     return isinstance(n, ast.Call) and isinstance(n.func, ast.Attribute) and n.func.attr in ('_generate_feature', '_configure_generate_feature')
 
 
+class RowCoverage:
+    """Abstract interpretation of generate_data for "every row of the (uninitialised) matrix is written exactly once, structured features at
+    their declared index".  Abstract state: the invariant `rows [0, cursor) are written, nothing else` plus three flags -
+      closed : all rows [0, n_features) are written (a full-range loop ran, or the cursor was driven up to n_features)
+      init   : the cursor has been set to 0
+      fill   : the term T of the last `fill the rows cursor .. T` that ran with no cursor movement since (cursor == max(cursor, T))
+    Accepted statements: X[c] = v; c += 1 (one row, cursor advanced) - `for i in range(c, T)` / `while c < T` around exactly that pair (fill up to T) -
+    `for i in range(n_features): X[i] = v` (all rows) - branches (both arms interpreted, flags met) - other loops (body interpreted as a loop
+    invariant).  Anything else that touches the matrix or the cursor is reported: violated when it breaks the invariant for sure (a row store
+    that does not advance the cursor, an advance without a store), inconclusive otherwise."""
+
+    def __init__(self, fn, X, chk):
+        self.fn, self.X, self.chk = fn, X, chk
+        self.m = fn.module
+        self.cursor = None
+        self.bad, self.unknown, self.placed = [], [], []
+        self.nfeat = expected_term(self.m, 'n_features')
+        self.derived = set()
+
+    # -- recognisers ----------------------------------------------------------
+    def _is_store(self, s):
+        return isinstance(s, ast.Assign) and len(s.targets) == 1 and isinstance(s.targets[0], ast.Subscript) and isinstance(s.targets[0].value, ast.Name) and s.targets[0].value.id == self.X
+
+    def _is_advance(self, s, name=None):
+        return isinstance(s, ast.AugAssign) and isinstance(s.target, ast.Name) and (name is None or s.target.id == name) and isinstance(s.op, ast.Add) and isinstance(s.value, ast.Constant) and s.value.value == 1
+
+    def _touches(self, s):
+        names = {x.id for x in ast.walk(s) if isinstance(x, ast.Name)}
+        return self.X in names or (self.cursor is not None and self.cursor in names and any(isinstance(x, ast.Name) and x.id == self.cursor and isinstance(x.ctx, ast.Store) for x in ast.walk(s)))
+
+    def _structured(self, value, body, pos):
+        """the stored value comes from _configure_generate_feature (directly or through a local bound just before)"""
+        if any(_is_gen_call(c) and c.func.attr == '_configure_generate_feature' for c in ast.walk(value)):
+            return True
+        if isinstance(value, ast.Name):
+            for d in reversed(body[:pos]):
+                if isinstance(d, ast.Assign) and isinstance(d.targets[0], ast.Name) and d.targets[0].id == value.id:
+                    return any(_is_gen_call(c) and c.func.attr == '_configure_generate_feature' for c in ast.walk(d.value))
+        return False
+
+    def _pair_body(self, body, loopvar=None):
+        """body is [temporaries..., X[c] = v, c += 1] (c the cursor, or the loop variable that equals it)"""
+        from ..match import is_noise_stmt
+        core = [b for b in body if not is_noise_stmt(b) and not isinstance(b, ast.Pass) and not (isinstance(b, ast.Assign) and len(b.targets) == 1 and isinstance(b.targets[0], ast.Name) and b.targets[0].id not in (self.cursor, self.X))]
+        if len(core) != 2 or not self._is_store(core[0]) or not self._is_advance(core[1]):
+            return False
+        idx = core[0].targets[0].slice
+        c = core[1].target.id
+        if not isinstance(idx, ast.Name) or idx.id not in (c, loopvar):
+            return False
+        if self.cursor is None:
+            self.cursor = c
+        return c == self.cursor
+
+    # -- interpretation ---------------------------------------------------------
+    def run(self, body, st):
+        from ..match import is_noise_stmt
+        i = 0
+        while i < len(body):
+            s = body[i]
+            nxt = body[i + 1] if i + 1 < len(body) else None
+            i += 1
+            if is_noise_stmt(s) or isinstance(s, ast.Pass):
+                continue
+            if isinstance(s, ast.Return):
+                self.at_exit(st, s)
+                st['dead'] = True
+                return st
+            if isinstance(s, ast.Raise):
+                st['dead'] = True
+                return st
+            # cursor initialisation
+            if isinstance(s, ast.Assign) and len(s.targets) == 1 and isinstance(s.targets[0], ast.Name) and isinstance(s.value, ast.Constant) and s.value.value == 0 and not isinstance(s.value.value, bool) \
+                    and self._cursor_candidate(s.targets[0].id):
+                if st['init'] and st.get('wrote'):
+                    self.bad.append(('C19.1b', s, f'the cursor `{s.targets[0].id}` is reset to 0 after rows were written: they are overwritten'))
+                self.cursor = self.cursor or s.targets[0].id
+                st['init'] = True
+                continue
+            # the cursor set by assignment: c = c (nothing), or c = T right after the rows c .. T were written at a loop index
+            if self.cursor is not None and isinstance(s, ast.Assign) and len(s.targets) == 1 and isinstance(s.targets[0], ast.Name) and s.targets[0].id == self.cursor:
+                vt = term_of(self.fn, s.value, inline=False)
+                if vt == ('name', self.cursor):
+                    continue
+                if st.get('stale') is not None and st.get('stale') is not True and vt == st['stale']:
+                    st['fill'], st['stale'] = vt, None
+                    if vt == self.nfeat:
+                        st['closed'] = True
+                    continue
+                self.unknown.append((s, f'the cursor `{self.cursor}` is set to a value the row-coverage rule cannot relate to the rows written'))
+                continue
+            if self._is_store(s):
+                idx = s.targets[0].slice
+                if isinstance(idx, ast.Name) and nxt is not None and self._is_advance(nxt, idx.id) and (self.cursor in (None, idx.id)):
+                    self.cursor = idx.id
+                    if st.get('stale') is not None:
+                        self.bad.append(('C19.1b', s, f'a row is stored at the cursor `{idx.id}` after rows were written past it without advancing it: rows already written are overwritten'))
+                    if not st['init']:
+                        self.unknown.append((s, f'the cursor `{idx.id}` is used before it is set to 0 on this path'))
+                    if self._structured(s.value, body, i - 1):
+                        self.placed.append((s, st['fill']))
+                    st['fill'] = None
+                    st['wrote'] = True
+                    i += 1
+                    continue
+                if isinstance(idx, ast.Name) and self.cursor is not None and idx.id == self.cursor:
+                    self.bad.append(('C19.1b', s, f'a row is stored at the cursor `{idx.id}` without advancing it: the next store overwrites the row and one row of the uninitialised matrix is never written'))
+                    continue
+                self.unknown.append((s, 'a store into the matrix that is neither a row store at the cursor nor part of a full-range loop'))
+                continue
+            if self._is_advance(s) and self.cursor is not None and s.target.id == self.cursor:
+                self.bad.append(('C19.1b', s, f'the cursor `{self.cursor}` is advanced without a row being stored: that row keeps uninitialised memory'))
+                continue
+            if isinstance(s, ast.If):
+                t = term_of(self.fn, s.test, inline=False)
+                a, b = dict(st), dict(st)
+                a = self.run(s.body, a)
+                b = self.run(s.orelse, b)
+                # `if c < n_features: <fill up to n_features>`: where the test fails the cursor is already past the last row
+                c = self.cursor
+                b_idle = b.get('wrote') == st.get('wrote') and not b.get('dead')       # the arm where the test fails writes nothing
+                if c and b_idle and t in (expected_term(self.m, f'{c} < n_features'), expected_term(self.m, f'{c} != n_features'), expected_term(self.m, f'{c} <= n_features')):
+                    b['closed'] = b['closed'] or st['init']
+                if c and b_idle and st['fill'] is None and t[0] == 'cmp' and t[1] == '<' and t[2] == ('name', c) and a.get('fill') == t[3]:
+                    b['fill'] = t[3]          # `if c < T: fill up to T`: otherwise c >= T already
+                live = [x for x in (a, b) if not x.get('dead')]
+                if not live:
+                    st['dead'] = True
+                    return st
+                stales = [x.get('stale') for x in live if x.get('stale') is not None]
+                st.update({'stale': (stales[0] if len(set(map(repr, stales))) == 1 else True) if stales else None, 'closed': all(x['closed'] for x in live), 'init': all(x['init'] for x in live), 'wrote': any(x.get('wrote') for x in live),
+                           'fill': live[0]['fill'] if all(x['fill'] == live[0]['fill'] for x in live) else None})
+                continue
+            if isinstance(s, (ast.For, ast.While)):
+                kind = self._loop_kind(s)
+                if kind[0] == 'full':
+                    st['closed'] = True
+                    st['wrote'] = True
+                    continue
+                if kind[0] == 'prefix':
+                    # rows [0, B) written at the loop index: all rows only when B is n_features
+                    st['wrote'] = True
+                    if st.get('init') and self.cursor:
+                        st['stale'] = True
+                    continue
+                if kind[0] == 'fill-stale':
+                    st['wrote'] = True
+                    st['stale'] = kind[1]        # the cursor no longer marks the written prefix: rows up to this term are written
+                    st['fill'] = None
+                    if kind[1] == self.nfeat:
+                        st['closed'] = True
+                    continue
+                if kind[0] == 'fill':
+                    if not st['init']:
+                        self.unknown.append((s, f'the cursor `{self.cursor}` is used before it is set to 0 on this path'))
+                    st['fill'] = kind[1]
+                    st['wrote'] = True
+                    if kind[1] == self.nfeat:
+                        st['closed'] = True
+                    continue
+                if kind[0] == 'bad':
+                    self.bad.append((kind[1], s, kind[2]))
+                    continue
+                # any other loop: its body must keep the invariant; it may run zero times
+                if isinstance(s, ast.For):
+                    self._note_derived(s)
+                inner = dict(st, fill=None, closed=False)
+                inner = self.run(s.body, inner)
+                st['wrote'] = st.get('wrote') or inner.get('wrote')
+                st['init'] = st['init'] and (inner['init'] or inner.get('dead', False))
+                st['fill'] = None if inner.get('wrote') else st['fill']
+                if getattr(s, 'orelse', None):
+                    st = self.run(s.orelse, st)
+                continue
+            if isinstance(s, (ast.With, ast.Try)):
+                st = self.run(s.body, st)
+                for h in getattr(s, 'handlers', []):
+                    self.run(h.body, dict(st))
+                st = self.run(getattr(s, 'finalbody', []) or [], st)
+                continue
+            if isinstance(s, ast.Assign):
+                self._note_assign(s)
+                if len(s.targets) == 1 and isinstance(s.targets[0], ast.Name) and s.targets[0].id == self.X and isinstance(s.value, ast.Call) and self.m.dotted(s.value.func) in ('numpy.empty', 'numpy.zeros'):
+                    continue      # the allocation
+            if self._touches(s):
+                self.unknown.append((s, 'a statement that touches the matrix or the cursor in a way the row-coverage rule does not model'))
+        return st
+
+    def _cursor_candidate(self, name):
+        """`name = 0` initialises the cursor when name is later used as a row index that is advanced (X[name] = ..; name += 1)"""
+        if self.cursor is not None:
+            return name == self.cursor
+        for n in own_nodes(self.fn.node):
+            if self._is_store(n) and isinstance(n.targets[0].slice, ast.Name) and n.targets[0].slice.id == name:
+                return any(self._is_advance(x, name) for x in own_nodes(self.fn.node))
+        return False
+
+    def _note_assign(self, s):
+        names = {x.id for x in ast.walk(s.value) if isinstance(x, ast.Name)}
+        if names & self.derived:
+            for t in s.targets:
+                self.derived |= {x.id for x in ast.walk(t) if isinstance(x, ast.Name)}
+
+    def _note_derived(self, lp):
+        it_names = {x.id for x in ast.walk(lp.iter) if isinstance(x, ast.Name)}
+        if 'structure' in it_names or it_names & self.derived:
+            self.derived |= {x.id for x in ast.walk(lp.target) if isinstance(x, ast.Name)}
+
+    def _loop_kind(self, s):
+        fn, m = self.fn, self.m
+        E = lambda src: expected_term(m, src)
+        if isinstance(s, ast.For) and isinstance(s.target, ast.Name) and not s.orelse:
+            it = term_of(fn, s.iter, inline=False)
+            i = s.target.id
+            if it == E('range(n_features)') or it == E('range(0, n_features)'):
+                from ..match import is_noise_stmt
+                top = [b for b in s.body if self._is_store(b)]
+                cond = any(isinstance(x, (ast.Continue, ast.Break)) for x in ast.walk(s))
+                if len(top) == 1 and isinstance(top[0].targets[0].slice, ast.Name) and top[0].targets[0].slice.id == i and not cond:
+                    return ('full',)
+                inner = [x for x in ast.walk(s) if self._is_store(x) and isinstance(x.targets[0].slice, ast.Name) and x.targets[0].slice.id == i]
+                if inner:
+                    return ('bad', 'C19.1c', 'without a structure every row range(n_features) must be written unconditionally: a row store under a condition / after continue leaves rows of the uninitialised matrix unwritten')
+                return ('other',)
+            if it[0] == 'call' and it[1] == ('name', 'range') and len(it[2]) == 2 and it[2][0][0] == 'name' and self._cursor_candidate(it[2][0][1]):
+                self.cursor = self.cursor or it[2][0][1]
+                if it[2][0][1] == self.cursor and self._pair_body(s.body, loopvar=i):
+                    return ('fill', it[2][1])
+                # rows cursor .. T written at the loop index, the cursor itself left behind (only sound as the last writes)
+                top = [b for b in s.body if self._is_store(b)]
+                others = [x for x in ast.walk(s) if (self._is_store(x) and x not in top) or (self._is_advance(x) and x.target.id == self.cursor) or isinstance(x, (ast.Continue, ast.Break))]
+                if it[2][0][1] == self.cursor and len(top) == 1 and not others and isinstance(top[0].targets[0].slice, ast.Name) and top[0].targets[0].slice.id == i:
+                    return ('fill-stale', it[2][1])
+                if it[2][0][1] == self.cursor and any(self._is_store(x) for x in ast.walk(s)):
+                    return ('bad', 'C19.1b', f'the loop over range({self.cursor}, ...) must store exactly one row at the cursor and advance it once per iteration')
+            # any other `for i in range(A, B): X[i] = v`: rows [A, B) are written
+            if it[0] == 'call' and it[1] == ('name', 'range') and len(it[2]) in (1, 2):
+                top = [b for b in s.body if self._is_store(b)]
+                others = [x for x in ast.walk(s) if (self._is_store(x) and x not in top) or isinstance(x, (ast.Continue, ast.Break))]
+                if len(top) == 1 and not others and isinstance(top[0].targets[0].slice, ast.Name) and top[0].targets[0].slice.id == i:
+                    A = it[2][0] if len(it[2]) == 2 else ('num', 0)
+                    B = it[2][-1]
+                    c = self.cursor
+                    if c and any(x == ('name', c) for x in walk_term(A)):
+                        return ('bad', 'C19.1d', f'the rows are filled from {show(A)} although the rows up to the cursor `{c}` (exclusive) are the written ones: the rows in between are skipped or written twice')
+                    if A == ('num', 0):
+                        return ('prefix', B)
+        if isinstance(s, ast.While) and not s.orelse:
+            t = term_of(fn, s.test, inline=False)
+            if t[0] == 'cmp' and t[1] == '<' and t[2][0] == 'name' and self._cursor_candidate(t[2][1]):
+                self.cursor = self.cursor or t[2][1]
+                if t[2][1] == self.cursor and self._pair_body(s.body):
+                    return ('fill', t[3])
+                if t[2][1] == self.cursor and any(self._is_store(x) for x in ast.walk(s)):
+                    return ('bad', 'C19.1b', f'the loop `while {self.cursor} < ...` must store exactly one row at the cursor and advance it once per iteration')
+        return ('other',)
+
+    def at_exit(self, st, node):
+        self.exits.append((node, dict(st)))
+
+    def check(self):
+        chk, fn = self.chk, self.fn
+        self.exits = []
+        st = self.run(fn.node.body, {'closed': False, 'init': False, 'fill': None, 'wrote': False})
+        if not st.get('dead'):
+            self.at_exit(st, fn.node)
+        for oid, node, why in self.bad:
+            chk.bad(oid, 'R4', fn.site(node), ast.unparse(node).replace('\n', ' ')[:100], why)
+        for node, why in self.unknown:
+            chk.unsure('C19.1a', 'R4', fn.site(node), ast.unparse(node).replace('\n', ' ')[:100], why)
+        if not self.bad and not self.unknown:
+            chk.ok('C19.1a', 'R4', fn.site(), f'row stores of `{self.X}`' + (f' (cursor `{self.cursor}`)' if self.cursor else ''), 'every store writes one whole row, at the cursor (advanced once per row) or at the index of a full-range loop')
+            chk.ok('C19.1b', 'R4', fn.site(), f'cursor `{self.cursor}`', 'the cursor starts at 0 and advances exactly once per row written')
+        open_exits = [(n, s_) for n, s_ in self.exits if not s_['closed']]
+        if open_exits and not self.unknown:
+            n = open_exits[0][0]
+            chk.bad('C19.1d', 'R4', fn.site(n) if not isinstance(n, ast.FunctionDef) else fn.site(), ast.unparse(n)[:80] if not isinstance(n, ast.FunctionDef) else 'end of generate_data',
+                    'the function can return before every row range(n_features) of the uninitialised matrix is written (no full-range loop and no fill of range(cursor, n_features) on this path): the remaining rows hold uninitialised memory')
+        elif not open_exits and self.exits:
+            chk.ok('C19.1c', 'R4', fn.site(), f'{len(self.exits)} exit(s)', 'on every path all rows range(n_features) are written before the matrix is returned')
+            chk.ok('C19.1d', 'R4', fn.site(), f'{len(self.exits)} exit(s)', 'rows after the last structured feature are filled')
+        # 2 placement: each structured feature is stored right after the rows up to its declared index were filled
+        chk.require_count('structured feature stores', len(self.placed), 1)
+        for node, fill in self.placed:
+            names = {x[1] for x in walk_term(fill) if isinstance(x, tuple) and len(x) == 2 and x[0] == 'name'} if fill is not None else set()
+            if fill is None:
+                chk.bad('C19.2', 'R1', fn.site(node), ast.unparse(node)[:100], f'the structured feature is stored at the cursor without first filling the rows up to its declared index in the same iteration: features of a structure entry do not land at their declared column positions')
+            elif names and names <= self.derived:
+                chk.ok('C19.2', 'R1', fn.site(node), f'{ast.unparse(node)[:60]} after filling up to {show(fill)[:40]}', 'default features are generated up to the declared index before the structured feature is stored (so it sits at its declared column)')
+            else:
+                chk.unsure('C19.2', 'R1', fn.site(node), f'{ast.unparse(node)[:60]} after filling up to {show(fill)[:40]}', 'the index the rows are filled up to is not visibly the index declared by the structure entry')
+
+
 def matrix(repo, chk):
     fn = repo.func(CC, f'{CLS}.generate_data')
     m = fn.module
@@ -60,143 +353,179 @@ def matrix(repo, chk):
     rets = returns(fn)
     chk.expect(len(rets) == 1 and ast.unparse(rets[0].value) in (f'{X}.T', f'{X}.transpose()', f'np.transpose({X})'), 'C19.3b', 'R8', fn.site(rets[0]) if rets else fn.site(), ast.unparse(rets[0]) if rets else '', 'the data set is the transpose (n_samples x n_features)', 'generate_data must return X.T')
     zero_init = m.dotted(al.value.func) == 'numpy.zeros'
-    # all stores into X
-    stores = [n for n in own_nodes(fn.node) if isinstance(n, ast.Assign) and isinstance(n.targets[0], ast.Subscript) and isinstance(n.targets[0].value, ast.Name) and n.targets[0].value.id == X]
-    cursor = None
-    problems = []
-    n_cursor = n_range = 0
-    for st in stores:
-        idx = st.targets[0].slice
-        blk = par.get(st)
-        body = blk.body if st in getattr(blk, 'body', []) else getattr(blk, 'orelse', [])
-        if not isinstance(idx, ast.Name):
-            problems.append((st, 'store is not a whole-row store X[i] = ...'))
-            continue
-        # (a) range loop variable
-        lp = blk if isinstance(blk, ast.For) else None
-        if lp is not None and isinstance(lp.target, ast.Name) and lp.target.id == idx.id and isinstance(lp.iter, ast.Call) and isinstance(lp.iter.func, ast.Name) and lp.iter.func.id == 'range':
-            n_range += 1
-            continue
-        # (b) cursor: followed by idx += 1
-        pos = body.index(st)
-        nxt = body[pos + 1] if pos + 1 < len(body) else None
-        if isinstance(nxt, ast.AugAssign) and isinstance(nxt.target, ast.Name) and nxt.target.id == idx.id and isinstance(nxt.op, ast.Add) and isinstance(nxt.value, ast.Constant) and nxt.value.value == 1:
-            cursor = cursor or idx.id
-            if cursor != idx.id:
-                problems.append((st, 'two different cursors'))
-            n_cursor += 1
-            continue
-        problems.append((st, f'row store at `{idx.id}` is neither inside `for {idx.id} in range(...)` nor followed by `{idx.id} += 1`'))
-    for st, why in problems:
-        chk.bad('C19.1a', 'R4', fn.site(st), ast.unparse(st), f'{why}: rows of the uninitialised matrix can be skipped or overwritten')
-    if cursor:
-        incs = [n for n in own_nodes(fn.node) if isinstance(n, ast.AugAssign) and isinstance(n.target, ast.Name) and n.target.id == cursor]
-        inits = [n for n in own_nodes(fn.node) if isinstance(n, ast.Assign) and isinstance(n.targets[0], ast.Name) and n.targets[0].id == cursor]
-        ok_c = len(incs) == n_cursor and len(inits) == 1 and isinstance(inits[0].value, ast.Constant) and inits[0].value.value == 0
-        chk.expect(ok_c, 'C19.1b', 'R4', fn.site(inits[0]) if inits else fn.site(), f'{cursor} = 0; {len(incs)} advances for {n_cursor} cursor stores', 'the cursor starts at 0 and advances exactly once per row written', f'the cursor `{cursor}` is advanced {len(incs)} times for {n_cursor} stores (or not initialised to 0): rows are skipped or overwritten', soft=True)
-    # paths: structure None -> full range; else closing fill
-    top_if = next((s for s in fn.node.body if isinstance(s, ast.If) and 'structure' in ast.unparse(s.test)), None)
-    if top_if is None:
-        chk.unsure('C19.1c', 'R4', fn.site(), 'if structure is None', 'top-level structure dispatch not found')
-        return
-    none_first = term_of(fn, top_if.test, inline=False) == E('structure is None')
-    none_body, struct_body = (top_if.body, top_if.orelse) if none_first else (top_if.orelse, top_if.body)
-    full = [s for s in none_body if isinstance(s, ast.For) and term_of(fn, s.iter, inline=False) == E('range(n_features)')]
-    ok_full = len(full) == 1 and any(st in full[0].body for st in stores) and not any(isinstance(x, (ast.If, ast.Continue, ast.Break)) for x in ast.walk(full[0]))
-    chk.expect(ok_full or zero_init, 'C19.1c', 'R4', fn.site(full[0]) if full else fn.site(top_if), 'for i in range(n_features): X[i] = feature', 'without a structure every row is written', 'without a structure every row range(n_features) must be written unconditionally')
-    closing = [s for s in ast.walk(ast.Module(body=struct_body, type_ignores=[])) if isinstance(s, ast.For) and cursor and term_of(fn, s.iter, inline=False) == E(f'range({cursor}, n_features)')]
-    last_loop = max((s.end_lineno for s in struct_body if isinstance(s, ast.For)), default=0)
-    ok_close = len(closing) == 1 and closing[0].lineno > last_loop - 0 and any(st in closing[0].body for st in stores)
-    if closing:
-        g = par.get(closing[0])
-        if isinstance(g, ast.If):
-            ok_close = ok_close and term_of(fn, g.test, inline=False) in (E(f'{cursor} < n_features'), E(f'{cursor} != n_features'), E(f'{cursor} <= n_features'))
-        # must come after the structure loop (top level of the structured branch)
-        top = g if isinstance(g, ast.If) else closing[0]
-        ok_close = ok_close and top in struct_body and struct_body.index(top) == len(struct_body) - 1
-    chk.expect(ok_close or zero_init, 'C19.1d', 'R4', fn.site(closing[0]) if closing else fn.site(top_if), f'for i in range({cursor}, n_features): X[i] = feature', 'rows after the last structured feature are filled', 'after the structure has been processed the remaining rows range(cursor, n_features) must be filled: otherwise they hold uninitialised memory')
-    # 2 placement: each structured store has its own gap fill
-    def _reaching_def(st):
-        blk = par.get(st)
-        body = blk.body if st in getattr(blk, 'body', []) else getattr(blk, 'orelse', [])
-        pos = body.index(st)
-        for d in reversed(body[:pos]):
-            if isinstance(d, ast.Assign) and isinstance(d.targets[0], ast.Name) and isinstance(st.value, ast.Name) and d.targets[0].id == st.value.id:
-                return d
-        return None
-    cfg_stores = [st for st in stores if isinstance(st.value, ast.Name) and _reaching_def(st) is not None and _is_gen_call(_reaching_def(st).value) and _reaching_def(st).value.func.attr == '_configure_generate_feature']
-    chk.require_count('structured feature stores', len(cfg_stores), 2)
-    for st in cfg_stores:
-        blk = par.get(st)
-        body = blk.body if st in getattr(blk, 'body', []) else getattr(blk, 'orelse', [])
-        # the index variable of this entry: loop variable of the enclosing `for feature_ix in feature_ixs` or the unpacked feature_ix
-        idxvar = None
-        if isinstance(blk, ast.For) and isinstance(blk.target, ast.Name):
-            idxvar = blk.target.id
-        else:
-            for s in body:
-                if isinstance(s, ast.Assign) and isinstance(s.targets[0], ast.Tuple) and s.lineno < st.lineno and isinstance(s.targets[0].elts[0], ast.Name):
-                    idxvar = s.targets[0].elts[0].id
-        gaps = [s for s in body if s.lineno < st.lineno and any(isinstance(x, ast.For) and idxvar and term_of(fn, x.iter, inline=False) == E(f'range({cursor}, {idxvar})') for x in ast.walk(s))]
-        chk.expect(bool(gaps), 'C19.2', 'R1', fn.site(st), f'{ast.unparse(st)} (index variable {idxvar})', 'default features are generated up to the declared index before the structured feature is stored (so it sits at its declared column)',
-                   f'the structured feature is stored at the cursor without first filling range({cursor}, {idxvar}) in the same iteration: features of a structure entry do not land at their declared column positions')
+    cov = RowCoverage(fn, X, chk)
+    cov.check()
     # 6 seed dominates draws
     seeds = [c for c in calls(fn, dotted='numpy.random.seed')]
     gens = [c for c in own_nodes(fn.node) if _is_gen_call(c)]
     ok_seed = len(seeds) == 1 and ast.unparse(seeds[0].args[0]) == 'seed' and all(seeds[0].lineno < g.lineno for g in gens) and not any(True for p in [par.get(par.get(seeds[0]))] if isinstance(p, (ast.If, ast.For)))
     chk.expect(ok_seed, 'C19.6', 'R10', fn.site(seeds[0]) if seeds else fn.site(), ast.unparse(seeds[0]) if seeds else 'np.random.seed(seed)', 'np.random.seed(seed) precedes every draw of generate_data, unconditionally', 'generate_data must call np.random.seed(seed) unconditionally before the first feature is drawn')
-    other = [c for c in calls(fn) if (m.dotted(c.func) or '').startswith(('time.', 'os.urandom', 'secrets.', 'random.'))]
-    chk.expect(not other, 'C19.6b', 'R10', fn.site(other[0]) if other else fn.site(), ast.unparse(other[0]) if other else 'no other entropy source', 'no other entropy source', 'another entropy source is used')
+    # every draw of the generator comes from numpy's global generator (the one np.random.seed(seed) seeds): no other entropy source in the class
+    other = [(f, c) for f in m.funcs.values() for c in calls(f) if (m.dotted(c.func) or '').startswith(('time.', 'os.urandom', 'secrets.', 'random.', 'uuid.', 'numpy.random.default_rng', 'numpy.random.RandomState', 'numpy.random.Generator'))]
+    chk.expect(not other, 'C19.6b', 'R10', other[0][0].site(other[0][1]) if other else fn.site(), ast.unparse(other[0][1])[:100] if other else 'no other entropy source', 'no other entropy source in the generator module',
+               'a draw comes from an entropy source that np.random.seed(seed) does not seed: the data set is no longer a function of the seed')
 
 
 def feature(repo, chk):
+    """_generate_feature evaluated path by path (forking on its configuration tests).  Per path the returned vector is one expression over the
+    parameters: it must be drawn from the domain the configuration names (4c), hold nothing but domain values (4a), be only shuffled afterwards
+    (4b), be int32 (3c), and hold every domain value when representation is requested and the sample count allows it (5)."""
+    from ..match import run_paths, within_vocabulary
+    from ..terms import pattern, unify, walk_term
     fn = repo.func(CC, f'{CLS}._generate_feature')
     m = fn.module
-    E = lambda s: expected_term(m, s)
-    rets = returns(fn)
-    rv = rets[0].value if len(rets) == 1 else None
-    ok_ret = isinstance(rv, ast.Call) and isinstance(rv.func, ast.Attribute) and rv.func.attr == 'astype' and isinstance(rv.func.value, ast.Name) and len(rv.args) == 1 and ast.unparse(rv.args[0]) in ("'int32'", 'np.int32', 'numpy.int32')
-    chk.expect(ok_ret, 'C19.3c', 'R8', fn.site(rets[0]) if rets else fn.site(), ast.unparse(rets[0]) if rets else '', 'features are returned as int32', "_generate_feature must return <drawn values>.astype('int32')")
-    out = rets[0].value.func.value.id if ok_ret else 'sampled_values'
-    # every definition of the returned vector draws from vec (or appends vec)
-    defs = [n for n in own_nodes(fn.node) if isinstance(n, ast.Assign) and isinstance(n.targets[0], ast.Name) and n.targets[0].id == out]
-    bad = []
-    for d in defs:
-        t = term_of(fn, d.value, inline=False)
-        ok = False
-        if t[0] == 'call' and t[1] == ('lib', 'numpy.random.choice') and t[2] and t[2][0] == ('name', 'vec'):
-            ok = True
-        if t[0] == 'call' and t[1] == ('lib', 'numpy.append') and t[2] == (('name', out), ('name', 'vec')):
-            ok = True
-        if not ok:
-            bad.append(d)
-    chk.expect(not bad and len(defs) >= 2, 'C19.4a', 'origin', fn.site(bad[0]) if bad else fn.site(), ast.unparse(bad[0])[:100] if bad else f'{len(defs)} definitions of {out}: np.random.choice(vec, ...) / np.append({out}, vec)', 'every value of the feature comes from its domain vec', 'a value of the feature does not originate from np.random.choice(vec, ...) or vec itself: the feature can leave its declared domain', soft=True)
-    muts = [n for n in own_nodes(fn.node) if isinstance(n, (ast.AugAssign,)) and isinstance(n.target, ast.Name) and n.target.id == out] + \
-           [n for n in own_nodes(fn.node) if isinstance(n, ast.Assign) and isinstance(n.targets[0], ast.Subscript) and isinstance(n.targets[0].value, ast.Name) and n.targets[0].value.id == out]
-    chk.expect(not muts, 'C19.4b', 'origin', fn.site(muts[0]) if muts else fn.site(), ast.unparse(muts[0])[:100] if muts else f'{out} only shuffled', 'drawn values are only shuffled', 'drawn values are modified after the draw')
-    # vec definitions
-    vdefs = [n for n in own_nodes(fn.node) if isinstance(n, ast.Assign) and isinstance(n.targets[0], ast.Name) and n.targets[0].id == 'vec']
-    vt = [term_of(fn, d.value, inline=False) for d in vdefs]
-    want = {'default range': [E('numpy.arange(low, low + cardinality, 1)'), E('numpy.arange(low, low + cardinality)')],
-            'bounds': [E('range(low, high + 1)'), E('numpy.arange(low, high + 1)')],
-            'random draw': [E('numpy.random.choice(vec, size=cardinality, replace=False)')],
-            'given list': [E('numpy.array(vec)'), E('numpy.asarray(vec)')]}
-    for label, forms in want.items():
-        hit = [t for t in vt if t in forms]
-        chk.expect(bool(hit), f'C19.4c-{label.replace(" ", "_")}', 'R15', fn.site(vdefs[0]) if vdefs else fn.site(), label + ': ' + '; '.join(ast.unparse(d.value) for d in vdefs)[:160], f'domain construction: {label}', f'domain construction `{label}` not found in the stated form ({[show(f) for f in forms][0]})', soft=True)
-    extra = [d for d, t in zip(vdefs, vt) if not any(t in f for f in want.values())]
-    chk.expect(not extra, 'C19.4d', 'R15', fn.site(extra[0]) if extra else fn.site(), ast.unparse(extra[0])[:100] if extra else 'no other domain construction', 'no other domain construction', 'the domain is (re)defined in an unrecognised way')
-    # 5 representation guard
-    guards = [n for n in own_nodes(fn.node) if isinstance(n, ast.If) and 'ensure_rep' in ast.unparse(n.test)]
-    ok_g = False
-    if len(guards) == 1:
-        t = term_of(fn, guards[0].test, inline=True)
-        ok_g = t in (E('ensure_rep and len(vec) <= size'), E('ensure_rep and size >= len(vec)'))
-        # the branch draws size - len(vec) values and appends the whole domain
-        body_txt = ' '.join(ast.unparse(s) for s in guards[0].body).replace(' ', '')
-        ok_g = ok_g and 'size=size-len(vec)' in body_txt and f'np.append({out},vec)' in body_txt
-    chk.expect(ok_g, 'C19.5', 'R14', fn.site(guards[0]) if guards else fn.site(), ast.unparse(guards[0].test) if guards else 'if ensure_rep and len(vec) <= size', 'with ensure_rep every domain value is appended whenever the sample count allows (len(vec) <= size)',
-               'representation must be enforced whenever len(vec) <= size (drawing size - len(vec) values and appending the whole domain): with a strict comparison the boundary case n_samples == domain size is drawn at random and misses values', soft=True)
+    P = lambda src, holes=(): pattern(m, src, holes)
+    E = lambda s_: expected_term(m, s_)
+    paths = run_paths(fn, None, None, max_forks=6)
+    if paths is None:
+        chk.unsure('C19.4', 'R15', fn.site(), '_generate_feature', 'too many tests to fork on')
+        return
+    cn = Canon(m, Scope(None))
+    atoms = {'vec_none': E('vec is None'), 'random': E('random_values'), 'p_none': E('p is None'), 'rep': E('ensure_rep')}
+    oks = {k: 0 for k in ('C19.3c', 'C19.4a', 'C19.4b', 'C19.4c', 'C19.4p', 'C19.5')}
+    problems = {}
+    unsure = {}
+    seen_dom = set()
+    n_paths = 0
+    for assume, res in paths:
+        desc = ', '.join(f'{ast.unparse(t)[:40]} is {v}' for t, v in res.assumed) or 'single path'
+        if res.unknown is not None:
+            unsure.setdefault('C19.4', (res.unknown, 'a statement of _generate_feature is outside the path vocabulary'))
+            continue
+        if res.returned is None:
+            continue
+        n_paths += 1
+        val = {}
+        fits = None      # truth of `len(domain) <= size` assumed on this path (domain term compared later)
+        fit_terms = []
+        for t, v in res.assumed:
+            tt = term_of(fn, t, inline=False)
+            hit = False
+            for k, atom in atoms.items():
+                if tt == atom:
+                    val[k], hit = v, True
+                elif cn._not(tt) == atom:
+                    val[k], hit = (not v), True
+            if not hit:
+                fit_terms.append((tt, v, t))
+        site = fn.site(res.returned) if hasattr(res.returned, 'lineno') else fn.site()
+        rt = term_of(fn, res.returned, inline=False)
+        b0 = unify(P("X.astype('int32')", ['X']), rt) or unify(P('X.astype(numpy.int32)', ['X']), rt)
+        if b0 is None:
+            problems.setdefault('C19.3c', (site, desc, "_generate_feature must return <drawn values>.astype('int32')", rt, [P("X.astype('int32')", ['X'])]))
+            continue
+        oks['C19.3c'] += 1
+        X = b0['X']
+        b1 = unify(P('numpy.random.choice(D, size=S, p=W)', ['D', 'S', 'W']), X)
+        b2 = unify(P('numpy.append(numpy.random.choice(D, size=S, p=W), D2)', ['D', 'S', 'W', 'D2']), X) \
+            or unify(P('numpy.concatenate((numpy.random.choice(D, size=S, p=W), D2))', ['D', 'S', 'W', 'D2']), X) \
+            or unify(P('numpy.concatenate([numpy.random.choice(D, size=S, p=W), D2])', ['D', 'S', 'W', 'D2']), X) \
+            or unify(P('numpy.hstack((numpy.random.choice(D, size=S, p=W), D2))', ['D', 'S', 'W', 'D2']), X)
+        bb = b1 or b2
+        if bb is None:
+            draws = [x for x in walk_term(X) if isinstance(x, tuple) and x[:2] == ('call', ('lib', 'numpy.random.choice'))]
+            accepted = [P('numpy.append(numpy.random.choice(D, size=S, p=W), D)', []), P('numpy.random.choice(D, size=S, p=W)', [])]
+            if within_vocabulary(X, accepted):
+                problems.setdefault('C19.4a', (site, desc, f'a value of the feature does not originate from np.random.choice(domain, ...) or the domain itself: the feature can leave its declared domain; found {show(X)[:160]}'))
+            else:
+                unsure.setdefault('C19.4a', (res.returned if hasattr(res.returned, 'lineno') else fn.node, f'the returned vector is built with operations outside the vocabulary of the accepted forms: {show(X)[:160]}'))
+            continue
+        D, S, W = bb['D'], bb['S'], bb['W']
+        if b2 is not None and b1 is None and bb['D2'] != D:
+            problems.setdefault('C19.4a', (site, desc, f'the values appended to the draw are not the domain the draw was taken from: {show(bb["D2"])[:80]} vs {show(D)[:80]}'))
+            continue
+        oks['C19.4a'] += 1
+        # 4b: nothing but a shuffle touches the drawn values
+        touched = [c for c in res.calls if not (m.dotted(c['call'].func) in ('numpy.random.shuffle',) and len(c['call'].args) == 1)]
+        touched = [c for c in touched if any(isinstance(x, ast.Name) for x in ast.walk(c['call']))]
+        if touched or res.updates:
+            nd = (touched[0]['node'] if touched else res.updates[0]['node'])
+            problems.setdefault('C19.4b', (fn.site(nd), ast.unparse(nd)[:100], 'drawn values are modified after the draw'))
+        else:
+            oks['C19.4b'] += 1
+        # 4c: the domain named by the configuration
+        if val.get('vec_none') is True and val.get('random') is True:
+            want_d, label = [E('numpy.random.choice(range(low, high + 1), size=cardinality, replace=False)'), E('numpy.random.choice(numpy.arange(low, high + 1), size=cardinality, replace=False)')], 'random draw from [low, high]'
+        elif val.get('vec_none') is True and val.get('random') is False:
+            want_d, label = [E('numpy.arange(low, low + cardinality, 1)'), E('numpy.arange(low, low + cardinality)')], 'default range [low, low + cardinality)'
+        elif val.get('vec_none') is False:
+            want_d, label = [E('numpy.array(vec)'), E('numpy.asarray(vec)')], 'given list'
+        else:
+            want_d, label = None, None
+        if want_d is None:
+            unsure.setdefault('C19.4c', (res.returned if hasattr(res.returned, 'lineno') else fn.node, f'the path does not say which domain applies ({desc})'))
+        elif D in want_d:
+            oks['C19.4c'] += 1
+            seen_dom.add(label)
+        elif within_vocabulary(D, want_d):
+            problems.setdefault('C19.4c', (site, f'{desc}: domain = {show(D)[:120]}', f'domain construction `{label}` must be {show(want_d[0])[:100]}; found {show(D)[:140]}'))
+        else:
+            unsure.setdefault('C19.4c', (res.returned if hasattr(res.returned, 'lineno') else fn.node, f'the domain on the path ({desc}) is built with operations outside the vocabulary of the accepted forms: {show(D)[:140]}'))
+        # 5: representation
+        lenD = ('call', ('name', 'len'), (D,), ())
+        fit_atom = ('cmp', '<=', lenD, ('name', 'size'))
+        for tt, v, t_ast in fit_terms:
+            if tt == fit_atom:
+                fits = v
+            elif cn._not(tt) == fit_atom:
+                fits = not v
+            elif tt[0] == 'and' and set(tt[1]) == {fit_atom, atoms['rep']}:
+                # the whole condition bound to one flag
+                if v:
+                    fits, val['rep'] = True, True
+                elif val.get('rep') is True:
+                    fits = False
+                else:
+                    val.setdefault('rep_and_fit', False)
+            elif tt[0] == 'or' and set(tt[1]) == {cn._not(fit_atom), cn._not(atoms['rep'])}:
+                if not v:
+                    fits, val['rep'] = True, True
+                else:
+                    val.setdefault('rep_and_fit', False)
+            elif tt[0] == 'cmp' and any(x == lenD for x in walk_term(tt)) and any(x == ('name', 'size') for x in walk_term(tt)):
+                # another comparison of the domain size with the sample count: where the boundary is matters
+                problems.setdefault('C19.5', (fn.site(t_ast), ast.unparse(t_ast)[:100], 'representation must be enforced whenever len(domain) <= size (drawing size - len(domain) values and appending the whole domain): with another boundary the case n_samples == domain size is drawn at random and misses values'))
+        size_full = S == ('name', 'size')
+        size_rest = S == Canon(m, Scope(None), inline=False, bound={'LEN': lenD}).t(ast.parse('size - LEN', mode='eval').body)
+        if val.get('rep') is True and fits is True:
+            if b2 is not None and b1 is None and size_rest:
+                oks['C19.5'] += 1
+            else:
+                problems.setdefault('C19.5', (site, f'{desc}: {show(X)[:120]}', 'with ensure_rep and len(domain) <= size the vector must be size - len(domain) draws followed by the whole domain (every value represented)'))
+        elif val.get('rep') is False or fits is False or val.get('rep_and_fit') is False:
+            if b1 is not None and size_full:
+                oks['C19.5'] += 1
+            elif b2 is not None and b1 is None:
+                oks['C19.5'] += 1       # representing every value although not requested still yields a vector over the domain
+                if not size_rest:
+                    problems.setdefault('C19.3d', (site, f'{desc}: {show(X)[:120]}', 'the feature vector must have exactly `size` entries'))
+            else:
+                problems.setdefault('C19.3d', (site, f'{desc}: size={show(S)[:60]}', 'the feature vector must have exactly `size` entries'))
+        elif val.get('rep') is True and fits is None and b2 is not None and b1 is None:
+            problems.setdefault('C19.5', (site, desc, 'the whole domain is appended without testing that it fits into the sample count: with len(domain) > size the draw size is negative'))
+        # weights
+        if val.get('p_none') is True:
+            wt = [P('W0 / W0.sum()', ['W0']), P('W0 / numpy.sum(W0)', ['W0'])]
+            bw = next((x for x in (unify(w_, W) for w_ in wt) if x is not None), None)
+            if bw is not None:
+                oks['C19.4p'] += 1
+    if n_paths == 0 and not unsure:
+        chk.unsure('C19.4', 'R15', fn.site(), '_generate_feature', 'no path that returns a feature was evaluated')
+    titles = {'C19.3c': 'features are returned as int32', 'C19.4a': 'every value of the feature comes from its domain', 'C19.4b': 'drawn values are only shuffled',
+              'C19.4c': 'the domain is the one the configuration names (default range / random draw / given list)', 'C19.5': 'with ensure_rep every domain value is appended whenever the sample count allows (len(domain) <= size)'}
+    for oid, (site, construct, why, *rest) in problems.items():
+        if rest:
+            chk.expect_term(rest[0], rest[1], oid, 'R15', site, construct, '', why)
+        else:
+            chk.bad(oid, 'R14' if oid == 'C19.5' else ('origin' if oid in ('C19.4a', 'C19.4b') else 'R15'), site, construct, why)
+    for oid, (node, why) in unsure.items():
+        if oid not in problems:
+            chk.unsure(oid, 'R15', fn.site(node) if hasattr(node, 'lineno') else fn.site(), ast.unparse(node)[:100] if not isinstance(node, ast.FunctionDef) else '_generate_feature', why)
+    for oid, title in titles.items():
+        if oid not in problems and oid not in unsure and oks.get(oid):
+            chk.ok(oid, 'R15', fn.site(), f'{oks[oid]} path(s)', title, inspected=oks[oid])
+    if 'C19.4c' not in problems and 'C19.4c' not in unsure and 'C19.4' not in unsure:
+        chk.expect(seen_dom >= {'random draw from [low, high]', 'default range [low, low + cardinality)', 'given list'}, 'C19.4d', 'R7', fn.site(), ', '.join(sorted(seen_dom)), 'all three ways of naming a domain are served', 'a way of naming the domain (default range / random draw / given list) is no longer served', soft=True)
 
 
 def naive(repo, chk):
